@@ -403,7 +403,9 @@ def gen_wv(seed, tier):
               "wv sdiv 8 128:128 255:255", "wv sdiv 8 120:130 250:5", "wv widen 8 0:1 0:2",
               "wv widen 64 0:1 0:2", "wv widen 34 0:1 0:2", "wv widen 35 0:100000 0:200000", "wv widen 8 3:5 5:3",
               "wv widen 8 10:20 15:12", "wv widen 16 100:200 150:120",
-              "wv toitv 8 200:100", "wv toitv 8 100:200", "wv join 8 250:5 100:130", "wv meet 8 250:130 120:5"]
+              "wv toitv 8 200:100", "wv toitv 8 100:200", "wv join 8 250:5 100:130", "wv meet 8 250:130 120:5",
+              "wv mkzz 8 0 300", "wv mkzz 8 0 256", "wv mkzz 8 0 255", "wv mkzz 8 -1 300", "wv mkzz 8 -128 127",
+              "wv mkzz 8 -3 5", "wv mkzz 64 -9223372036854775808 9223372036854775807", "wv mkzz 3 10 16"]
     main += corpus
     err += ["wv zext 8 top 8", "wv sext 8 top 8", "wv trunc 8 3:3 0", "wv widen 1 0:0 1:1",
             "wv zext 60 1:2 5", "wv sext 64 1:2 1", "wv mkz 0 5", "wv slimit 65", "wv ulimit 0"]
@@ -437,6 +439,13 @@ def gen_wv(seed, tier):
                     err.append(l)     # assert(w > 1) in operator||
                     continue
                 main.append(l)
+    if tier != "quick":
+        # width 4, all pairs, the operators with the most case splits
+        allv = wv_all(4)
+        for a in allv:
+            for b in allv:
+                for op in ("mul", "sdiv", "udiv", "join", "meet", "widen"):
+                    main.append("wv %s 4 %s %s" % (op, wv_fmt(a), wv_fmt(b)))
     # ---- larger widths: pole-crossing and random
     widths = [4, 5, 6, 7, 8, 16, 31, 32, 33, 34, 35, 63, 64]
     nrand = 16000 if tier == "quick" else 300000
@@ -488,7 +497,10 @@ def gen_wv(seed, tier):
             if rng.random() < 0.5:
                 main.append("wv mkz %d %d" % (w, z))
             else:
-                z2 = z + rng.randrange(0, m)
+                z2 = z + rng.choice([rng.randrange(0, m), m - 1, m, m + rng.randrange(0, 50), 3 * m + 7,
+                                     rng.randrange(0, min(m, 40))])
+                if not (I64MIN <= z2 <= I64MAX):
+                    z2 = z
                 main.append("wv mkzz %d %d %d" % (w, z, z2))
     for w in (1, 8, 64):
         main.append("wv slimit %d" % w)
@@ -578,9 +590,17 @@ def wv_concrete(op, x, y, w):
 def oracle_wv(line, ans, rng):
     t = line.split()
     op, w = t[1], int(t[2])
-    if ans in ("ABORT", "MISSING"):
-        return None          # aborts are compared with the model only
     if w < 1 or w > 64:
+        return None
+    if ans in ("ABORT", "MISSING"):
+        # an abort where the operation is defined on every member is a failure of the
+        # property (there is no result interval); the documented errors are left to the
+        # comparison with the model
+        if op in WV_BIN + WV_BIN_ALIAS and not (op == "widen" and w == 1):
+            b = wv_parse_case(t[4], w)
+            if op in ("shl", "lshr", "ashr") and b not in ("bot", "top") and (b[0] >= 64 or b[1] >= 64):
+                return None
+            return "%s stopped with an error although the operation is defined on the operands" % line
         return None
     m = 2 ** w
     if op == "mkz":
@@ -590,7 +610,8 @@ def oracle_wv(line, ans, rng):
     if op == "mkzz":
         lo, hi = int(t[3]), int(t[4])
         r = wv_parse_answer(ans)
-        for z in {lo, hi, (lo + hi) // 2, lo + 1 if lo < hi else lo}:
+        for z in {lo, hi, (lo + hi) // 2, lo + 1 if lo < hi else lo, lo + (hi - lo) // 3, hi - 1 if lo < hi else hi,
+                  lo + min(hi - lo, m - 1), lo + min(hi - lo, m // 2)}:
             if lo <= z <= hi and not wv_in(r, z % m, w):
                 return "%s = %s does not contain %d mod 2^%d" % (line, ans, z, w)
         return None
